@@ -593,6 +593,20 @@ def gen_trees(ctx):
         if t[0] in ('const', 'param'):
             continue
         out.append(('nested', t))
+    # whole-tree theorems (Proofs/C38_trees.v): their three example trees, and chain rules whose c1/c2 are
+    # constant subtrees (folded, cast, undefined) rather than literals
+    out.append(('nested', ('binop', ('binop', ('const', -7, 'i8'), '%', ('const', 2, 'i8'), 'i8'), '+',
+                           ('cast', ('binop', ('const', 100, 'i32'), '*', ('const', 3, 'i32'), 'i32'), 'i8'), 'i8')))
+    out.append(('nested', ('binop', ('const', 1, 'i32'), '+', ('binop', ('const', 7, 'i32'), '%', ('const', 0, 'i32'), 'i32'), 'i32')))
+    for name in INT_TYPES:
+        lo, hi = rng_of(name)
+        for op in ('+', '-'):
+            k50 = ('binop', ('const', 50, name), '+', ('const', 50, name), name)
+            for c1, c2 in ((('const', hi, name), k50),
+                           (('binop', ('const', hi, name), '*', ('const', 3, name), name), ('cast', ('const', lo, name), name)),
+                           (('cast', ('const', 300, 'i32'), name), ('binop', ('const', 1, name), '<<', ('const', 200, name), name)),
+                           (('binop', ('const', 5, name), '%', ('const', 0, name), name), k50)):
+                out.append(('chain_subtrees', ('binop', ('binop', ('param', name), op, c1, name), op, c2, name)))
     return out
 
 
@@ -691,7 +705,7 @@ def run(ctx):
     if ctx.build(['Proofs/C38_asfound.vo'])[0]:
         ctx.check_props('Props/C38_asfound.v')
     if gen is not None:
-        ok, _ = ctx.build(['Proofs/C38_constfold.vo'])
+        ok, _ = ctx.build(['Proofs/C38_constfold.vo', 'Proofs/C38_trees.vo'])
         if ok:
             ctx.check_props('Props/C38.v')
     lap('regen_build_props')
@@ -756,7 +770,8 @@ RULE = ('model/pass cases: value trees Binop(Const,Const) for all 12 ir.Binop op
         'not an exception), or a helper call that returns a value')
 EXPLANATION = ('Unbounded Coq theorems (all widths >= 1, all operands) over the regenerated integer helpers and ops table and the '
                'hand model of is_const/eval_const/on_block, against Spec/IRArith; 8-bit exhaustive vm_compute sweeps per operator as '
-               'bounded extras; refutations on the frozen as-found model. Green only with fixes/C38-*.diff applied to ppci. '
+               'bounded extras; whole expression trees of any depth (Proofs/C38_trees.v: a tree that evaluates at run time folds to that value; '
+               'no well-formed tree makes the pass raise, chain rules with constant subtrees included); refutations on the frozen as-found model. Green only with fixes/C38-*.diff applied to ppci. '
                'Not modelled: float-valued constants, multi-instruction effects of on_block (insertion position, use lists).')
 TRUSTED = ['tools/py2coq.py and the flattening pre-pass in tools/props/c38.py (fail-closed; output cross-checked on every run)',
            'Model/PyOperator.v: meaning of operator.add/sub/mul/mod/lshift/rshift on ints',
@@ -771,7 +786,8 @@ MANIFEST = {
             'whose operation is defined at run time is replaced by exactly the run-time value; folded and chain-folded constants lie in '
             'the range of their type; integer casts of constants equal the run-time conversion; (y+c1)+c2 and (y-c1)-c2 are rewritten to '
             'an equivalent instruction for every y; undefined operations (x % 0, out-of-range shifts) and floating point chains are left '
-            'alone and never make the pass raise. Helpers and ops table are regenerated from the source on every run.',
+            'alone and never make the pass raise; nested constant expressions of any depth (Binop/Cast trees) fold to their run-time value, and no '
+            'well-formed tree (unknown leaves, undefined inner operations) makes the pass raise or create an out-of-range constant. Helpers and ops table are regenerated from the source on every run.',
     'note': 'holds for ppci with fixes/C38-rem-truncates.diff, C38-chain-wrap.diff, C38-undefined-not-folded.diff applied (as found: % used '
             'floor modulo, chain constants were not wrapped and floats were re-associated, x % 0 / negative shifts raised - see '
             'Props/C38_asfound.v). Trusted: Coq kernel, py2coq + flattening pre-pass, operator.* meanings, the hand model of '
